@@ -63,11 +63,41 @@ def gen_cases(ctx):
             if msgs and rng.random() < 0.3:  # the same sender again, same type, right away
                 src, typ, lvl = msgs[-1]["src"], msgs[-1]["type"], msgs[-1]["level"]
             msgs.append({"src": src, "level": lvl, "len": n, "type": typ})
+        mlevel = {}
+        if i % 5 == 2:  # some nodes override their multicast level
+            for a in nodes:
+                if a and rng.random() < 0.3:
+                    mlevel[str(a)] = rng.choice([l for l in range(1, 5) if l != net_ref.level(a)])
+            relay1 = [a for a in relay1 if a]  # a relaying master re-broadcasts to level 0: unspecified
+        busy = []
+        if i % 6 == 4:
+            # a routed ACK-typed unicast whose NETWORK_ACK is lost keeps its sender waiting while a
+            # multicast to that sender's level arrives (concurrency on purpose)
+            # destination: an ABSENT sibling (routed via the parent, whose forward fails), so that
+            # no NETWORK_ACK ever comes back and nobody on u's level is kept busy transmitting
+            cands = []
+            for u in nodes:
+                if not u or str(u) in mlevel or u in mc_off:
+                    continue
+                par = net_ref.parent(u)
+                sh = 3 * (net_ref.level(u) - 1)
+                for c in range(1, 6):
+                    d = par | (c << sh)
+                    if d not in nodes and d != net_ref.DEFAULT_ADDR:
+                        cands.append((u, d))
+            for _ in range(3):
+                if cands:
+                    u, d = rng.choice(cands)
+                    others = [v for v in nodes if v != u and v not in mc_off]
+                    if others:
+                        busy.append({"u": u, "d": d, "v": rng.choice(others), "delay": rng.choice([8, 15, 30, 50]),
+                                     "len": rng.choice([0, 8, 24])})
         lazy = [a for a in nodes if i % 4 == 3 and rng.random() < 0.5]
         if lazy:
             for ms in msgs:
                 ms["len"] = max(4, ms["len"])
         yield {"nodes": nodes, "relay": relay1, "mc_off": mc_off, "msgs": msgs, "lazy": lazy,
+               "mlevel": mlevel, "busy": busy,
                "profiles": {str(a): N.rand_profile(rng, base=base) for a in nodes},
                "seed": rng.getrandbits(30)}
 
@@ -89,9 +119,13 @@ def _run(ctx, case, net):
                 o.node_address = a
             if a in case["relay"]:
                 o.multicast_relay = True
+            if str(a) in case.get("mlevel", {}):
+                o.multicast_level = case["mlevel"][str(a)]
         nn = net.add("net", a, profile=case["profiles"][str(a)], setup=setup)
         if a in case.get("lazy", []):
             nn.lazy_ns = 40 * W.MS
+    # the level a node multicasts on / listens on / relays from is its multicast_level
+    level_of = {a: case.get("mlevel", {}).get(str(a), net_ref.level(a)) for a in nodes}
     c07 = {"n": 0}
 
     def mon(nn, op, outcome):
@@ -114,6 +148,23 @@ def _run(ctx, case, net):
         net.steps.append({"who": ms["src"], "name": "multicast", "fn": fn, "deadline_ms": 3000,
                           "gap": 12 * W.MS})
         sent.append(payload)
+    Hdr = net.m["structs"].RF24NetworkHeader
+    companions = []
+    for b in case.get("busy", []):
+        k = len(case["msgs"]) + len(companions) + 1
+        ms = {"src": b["v"], "level": level_of[b["u"]], "len": b["len"], "type": 9, "companion_of": b["u"]}
+        payload = msg_bytes(k, max(4, ms["len"]))
+        ms["len"] = len(payload)
+
+        def main_fn(nn, b=b):
+            return nn.obj.send(Hdr(b["d"], 70), b"busy-unicast")
+
+        def comp_fn(nn, ms=ms, payload=payload):
+            return nn.obj.multicast(payload, ms["type"], ms["level"])
+        comp = {"who": b["v"], "name": "multicast", "fn": comp_fn, "delay_ms": b["delay"]}
+        net.steps.append({"who": b["u"], "name": "send", "fn": main_fn, "deadline_ms": 4000,
+                          "gap": 12 * W.MS, "companion": comp})
+        companions.append((ms, payload, comp))
     if not net.run(wall_timeout=120):
         ctx.count("watchdog_inconclusive")
         return
@@ -121,6 +172,14 @@ def _run(ctx, case, net):
         if nn.exc is not None:
             ctx.violation("exception-in-node", "node %s: %r" % (oct(nn.obj.node_address), nn.exc), case)
             return
+    # the concurrent multicasts are judged like the others (with their own records)
+    extra_recs = []
+    for ms, payload, comp in companions:
+        if comp.get("rec") is not None:
+            r = dict(comp["rec"])
+            r["i"] = len(case["msgs"]) + len(extra_recs)
+            r["companion"] = True
+            extra_recs.append((r, ms, payload))
     # listening table facts
     for a in case["mc_off"]:
         ctx.clause("multicast_off_not_listening")
@@ -130,17 +189,24 @@ def _run(ctx, case, net):
             ctx.violation("multicast-off-still-listening", "node %s has allow_multicast off but "
                           "listens on its level's shared address" % oct(a), case)
             return
-    level_of = {a: net_ref.level(a) for a in nodes}
-    for rec in net.results:
-        ms = case["msgs"][rec["i"]]
+    all_msgs = list(case["msgs"]) + [ms for _, ms, _ in extra_recs]
+    all_sent = list(sent) + [pl for _, _, pl in extra_recs]
+    ordinary = [r for r in net.results if r["i"] < len(case["msgs"])]
+    records = ordinary + [r for r, _, _ in extra_recs]
+    sent = all_sent
+    for rec in records:
+        ms = all_msgs[rec["i"]]
         src = ms["src"]
         if rec["exc"]:
             ctx.violation("multicast-raised", "multicast from %s level %r: %s"
                           % (oct(src), ms["level"], rec["exc"]), case)
             return
         target = level_of[src] if ms["level"] is None else min(4, max(0, ms["level"]))
-        nxt = [r["air0"] for r in net.results if r["i"] == rec["i"] + 1]
-        pk = net.air.log[rec["air0"]:(nxt[0] if nxt else None)]
+        if rec.get("companion"):
+            pk = [p for p in net.air.log[rec["air0"]:] if p.t0 <= rec["t_ret"] + 12 * W.MS]
+        else:
+            nxt = [r["air0"] for r in net.results if r["i"] == rec["i"] + 1]
+            pk = net.air.log[rec["air0"]:(nxt[0] if nxt else None)]
         src_radio = net.bykey[src].radio
         mine = [p for p in pk if p.kind == "data" and p.src is src_radio]
         nfrag = max(1, (ms["len"] + 23) // 24)
@@ -163,7 +229,7 @@ def _run(ctx, case, net):
             mech = "/fragmented-unacknowledged-stream"
         # ---- unacknowledged, one packet per frame
         ctx.clause("unacknowledged")
-        acks = [p for p in pk if p.kind == "ack"]
+        acks = [p for p in pk if p.kind == "ack" and p.for_pkt in mine]
         if len(mine) != nfrag or any(p.attempt for p in mine) or acks:
             ctx.violation("multicast-acknowledged-or-retransmitted",
                           "multicast from %s level %r (%d bytes): %d packets from the sender for %d "
@@ -182,7 +248,7 @@ def _run(ctx, case, net):
         # ---- who got it
         copies = {}
         t_lo = rec["t_call"]
-        nxt_t = [r["t_call"] for r in net.results if r["i"] == rec["i"] + 1]
+        nxt_t = [r["t_call"] for r in records if r["i"] == rec["i"] + 1 and not r.get("companion")]
         t_hi = nxt_t[0] if nxt_t else 1 << 62
         for nn in net.nodes:
             for e in nn.applog:
@@ -219,7 +285,14 @@ def _run(ctx, case, net):
                 break
         ctx.clause("level_members_once")
         members = {a for a in nodes if level_of[a] == target and a != src and a not in case["mc_off"]}
-        bad = [a for a in members if copies.get(a, 0) != 1]
+        if rec.get("companion"):
+            # concurrent traffic: a member that was transmitting at that moment was not listening;
+            # only "never more than one copy" is judged for it
+            heard = {n for p in mine for n, o in p.outcomes if o.startswith("rx:")}
+            bad = [a for a in members if copies.get(a, 0) > 1
+                   or (net.bykey[a].radio.name in heard and copies.get(a, 0) != 1)]
+        else:
+            bad = [a for a in members if copies.get(a, 0) != 1]
         if bad:
             ctx.violation("level-member-copies" + mech,
                           "multicast from %s to level %d (%d bytes, arg %r): node %s of that level "
